@@ -446,7 +446,7 @@ package reftable
 //@   requires iref(src) != 0
 //@   nopanic
 //@   modifies buflen, bufdata
-//@   ensures result1 == nil ==> fresh(result0) && result0 != nil && result0.src == src
+//@   ensures result1 == nil ==> fresh(result0) && result0 != nil && result0.src == src && result0.name == name
 //@   ensures result1 == nil ==> (result0.hashSize == 20 || result0.hashSize == 32) && (result0.version == 1 || result0.version == 2)
 //@   ensures result1 == nil ==> result0.size < 9223372036854775808
 //@   ensures result1 == nil ==> result0.objectIDLen >= 0 && result0.objectIDLen < 32
@@ -733,7 +733,7 @@ package reftable
 // From the statement: tables of a merged view have increasing, non-overlapping update-index ranges and one hash type;
 // the view is raw (deletions visible) unless the stack turns suppression on.
 //@ func NewMerged
-//@   props C03 C05
+//@   props C03 C05 C06
 //@   modifies nothing
 //@   ensures[increasing] result1 == nil ==> (forall i int :: 1 <= i && i < len(tabs) ==> tabMax(tabs[i-1]) < tabMin(tabs[i]))
 //@   ensures[hash] result1 == nil ==> (forall i int :: 0 <= i && i < len(tabs) ==> tabHash(tabs[i]) == hashID)
@@ -768,6 +768,12 @@ package reftable
 //@ ghost listLen int
 //@ ghost wNames map[string]map[int]string
 //@ ghost wLen map[string]int
+//@ ghost tblExists map[string]bool
+//@ ghost retired map[string]bool
+//@ ghost rdClosed map[*Reader]bool
+//@ ghost fileClosed map[string]bool
+//@ ghost lastReadNames map[int]string
+//@ ghost lastReadLen int
 
 //@ spec isLock(p string) bool
 //@ spec pathJoin(d string, n string) string
@@ -778,17 +784,28 @@ package reftable
 //@ axiom isLockJoin: forall d string, n string :: isLock(pathJoin(d, n)) == isLock(n)
 //@ axiom listFileIsNoTable: forall d string, x string :: pathJoin(d, x + ".ref") != theListFile
 //@ axiom listFileIsNoLock: !isLock(theListFile)
+// temp files are named *.reftmp by the TempFile patterns in stack.go and never collide with a final table name "<fn>.ref"
+// built by formatName(...)+".ref" (the random part of a TempFile name is never empty)
+//@ spec isTmpName(p string) bool
+//@ axiom tmpIsNoTable: forall d string, x string :: !isTmpName(pathJoin(d, x + ".ref"))
 
 //@ spec listLock() string = theListFile + ".lock"
-//@ spec listStable() bool = listLen >= 0 && (old(held[listLock()]) ==> (listLen == old(listLen) && listNames == old(listNames)))
+//@ spec listedExist() bool = forall i int :: 0 <= i && i < listLen ==> tblExists[pathJoin(theDir, listNames[i])]
+//@ spec listLive() bool = forall i int :: 0 <= i && i < listLen ==> !retired[listNames[i]]
+//@ spec listDistinct() bool = forall i int, j int :: 0 <= i && i < j && j < listLen ==> listNames[i] != listNames[j]
+//@ spec notListed(p string) bool = forall i int :: 0 <= i && i < listLen ==> p != pathJoin(theDir, listNames[i])
+//@ spec notInLastRead(p string) bool = forall i int :: 0 <= i && i < lastReadLen ==> p != pathJoin(theDir, lastReadNames[i])
+//@ axiom pathJoinInjective: forall d string, a string, b string :: pathJoin(d, a) == pathJoin(d, b) ==> a == b
+// rely (I1, I5): other handles keep every listed table in place, and leave the list alone while this handle holds the lock
+//@ spec listStable() bool = listLen >= 0 && listedExist() && listDistinct() && listLive() && (old(held[listLock()]) ==> (listLen == old(listLen) && listNames == old(listNames)))
 //@ axiom jlNonNeg: forall s string :: jl(s) >= 0
 
 // G1 (C08): a lock path is removed or renamed only by the handle that created it.
 // G2 (C04, C05, C09): tables.list is replaced only from this handle's own lock file, and only by a list that extends
 // the current list with new tables or replaces one contiguous range of it by at most one table.
-//@ spec goodCommit(from string, a int, b int, k int) bool = held[from] && from == listLock() && (isAppendOf(from) || isReplaceWith(from, a, b, k))
+//@ spec goodCommit(from string, a int, b int, k int) bool = held[from] && from == listLock() && (isAppendOf(from) || isReplaceWith(from, a, b, k)) && (forall i int :: 0 <= i && i < wLen[from] ==> tblExists[pathJoin(theDir, wNames[from][i])]) && (forall i int, j int :: 0 <= i && i < j && j < wLen[from] ==> wNames[from][i] != wNames[from][j]) && (forall i int :: 0 <= i && i < wLen[from] ==> !retired[wNames[from][i]])
 //@ spec isAppendOf(from string) bool = wLen[from] > listLen && (forall i int :: 0 <= i && i < listLen ==> wNames[from][i] == listNames[i])
-//@ spec isReplaceWith(from string, a int, b int, k int) bool = 0 <= a && a <= b && b < listLen && (k == 0 || k == 1) && wLen[from] == listLen - (b - a + 1) + k && (forall i int :: 0 <= i && i < a ==> wNames[from][i] == listNames[i]) && (forall i int :: a + k <= i && i < wLen[from] ==> wNames[from][i] == listNames[i + (b - a + 1) - k])
+//@ spec isReplaceWith(from string, a int, b int, k int) bool = 0 <= a && a <= b && b < listLen && (k == 0 || k == 1) && wLen[from] == listLen - (b - a + 1) + k && (forall i int :: 0 <= i && i < a ==> wNames[from][i] == listNames[i]) && (forall i int :: a + k <= i && i < wLen[from] ==> wNames[from][i] == listNames[i + (b - a + 1) - k]) && (k == 1 ==> (forall i int :: a <= i && i <= b ==> wNames[from][a] != listNames[i]))
 
 //@ extern os.OpenFile
 //@   params name, flag, perm
@@ -800,11 +817,17 @@ package reftable
 //@   ensures forall f ref :: allocated(f) ==> fileOf[f] == old(fileOf[f])
 //@   ensures listStable()
 
+// G3 (C05, C06): a table file is removed only if it is this call's own temp file, or - holding the list lock - it is
+// not named by tables.list, or - without the lock - the list most recently read by this handle does not name it
+// (that such a name never re-enters the list is the rely I3 of DESIGN.md section 3.2).
 //@ extern os.Remove
 //@   params name
 //@   requires[G1] isLock(name) ==> held[name]
-//@   modifies held, ownsTmp, listNames, listLen
-//@   ensures !held[name] && !ownsTmp[name]
+//@   requires[G3] !isLock(name) && !(ownsTmp[name] && !tblExists[name]) ==> (held[listLock()] ==> notListed(name)) && (!held[listLock()] ==> notInLastRead(name))
+//@   modifies held, ownsTmp, tblExists, listNames, listLen
+//@   ensures !held[name] && !ownsTmp[name] && !tblExists[name]
+//@   ensures forall p string :: p != name ==> tblExists[p] == old(tblExists[p])
+//@   ensures isLock(name) ==> tblExists == old(tblExists)
 //@   ensures old(held[name]) || old(ownsTmp[name]) ==> result == nil
 //@   ensures forall p string :: p != name ==> held[p] == old(held[p]) && ownsTmp[p] == old(ownsTmp[p])
 //@   ensures listStable()
@@ -816,7 +839,17 @@ package reftable
 //@   ghostparams a, b, k
 //@   requires[G1] isLock(oldpath) ==> held[oldpath]
 //@   requires[G2] newpath == theListFile ==> goodCommit(oldpath, a, b, k)
-//@   modifies held, ownsTmp, listNames, listLen, appends, commits
+//@   requires[G5] newpath != theListFile && !isLock(newpath) ==> ownsTmp[oldpath] && fileClosed[oldpath]
+//@   modifies held, ownsTmp, tblExists, retired, listNames, listLen, lastReadNames, lastReadLen, appends, commits
+//@   ensures[I3] forall n string :: old(retired[n]) ==> retired[n]
+//@   ensures[I3] newpath == theListFile && !old(isAppendOf(oldpath)) ==> (forall i int :: a <= i && i <= b ==> retired[old(listNames[i])])
+//@   ensures[I3] forall n string :: retired[n] ==> old(retired[n]) || (newpath == theListFile && !old(isAppendOf(oldpath)) && (exists i int :: a <= i && i <= b && old(listNames[i]) == n))
+//@   ensures newpath != theListFile ==> retired == old(retired)
+//@   ensures newpath == theListFile ==> lastReadLen == old(wLen[oldpath]) && lastReadNames == old(wNames[oldpath])
+//@   ensures newpath != theListFile ==> lastReadLen == old(lastReadLen) && lastReadNames == old(lastReadNames)
+//@   ensures newpath != theListFile && !isLock(newpath) ==> tblExists[newpath]
+//@   ensures forall p string :: p != newpath && p != oldpath ==> tblExists[p] == old(tblExists[p])
+//@   ensures newpath == theListFile || isLock(newpath) ==> tblExists == old(tblExists)
 //@   ensures result == nil
 //@   ensures !held[oldpath] && !ownsTmp[oldpath]
 //@   ensures appends == old(appends) + ((newpath == theListFile && old(isAppendOf(oldpath))) ? 1 : 0)
@@ -825,10 +858,37 @@ package reftable
 //@   ensures newpath == theListFile ==> listLen == old(wLen[oldpath]) && listNames == old(wNames[oldpath])
 //@   ensures newpath != theListFile ==> listStable()
 
+// Step lemmas (bodies in verif_lemmas.go): a guarded action keeps I1 under the lock.
+//@ func lemmaRemoveKeepsI1
+//@   props C05 C06
+//@   requires heldWf() && held[listLock()]
+//@   requires[G1] isLock(name) ==> held[name] && name != listLock()
+//@   requires[G3] !isLock(name) && !(ownsTmp[name] && !tblExists[name]) ==> notListed(name)
+//@   modifies held, ownsTmp, tblExists, listNames, listLen
+//@   ensures[I1] listedExist() && listDistinct() && listLive() && listLen == old(listLen) && listNames == old(listNames)
+
+//@ func lemmaTableRenameKeepsI1
+//@   props C05 C06
+//@   requires heldWf() && held[listLock()] && newpath != theListFile && !isLock(newpath) && !isLock(oldpath)
+//@   requires[G5] ownsTmp[oldpath] && fileClosed[oldpath] && !tblExists[oldpath]
+//@   modifies held, ownsTmp, tblExists, retired, listNames, listLen, lastReadNames, lastReadLen, appends, commits
+//@   ensures[I1] listedExist() && listDistinct() && listLive() && listLen == old(listLen) && listNames == old(listNames)
+//@   ensures[in-place] tblExists[newpath]
+
+//@ func lemmaCommitKeepsI1
+//@   props C04 C05 C06
+//@   requires heldWf() && list == theListFile
+//@   requires[G2] goodCommit(lock, a, b, k)
+//@   callsite os.Rename 1 ghost a = a; b = b; k = k
+//@   modifies held, ownsTmp, tblExists, retired, listNames, listLen, lastReadNames, lastReadLen, appends, commits
+//@   ensures[I1] listedExist() && listDistinct() && listLive()
+//@   ensures[new-list-is-what-was-written] listLen == old(wLen[lock]) && listNames == old(wNames[lock])
+//@   ensures[tables-untouched] tblExists == old(tblExists)
+
 //@ extern io/ioutil.TempFile
 //@   params dir, pattern
-//@   modifies ownsTmp, fileOf, listNames, listLen
-//@   ensures result1 == nil && result0 != nil && fresh(result0) && ownsTmp[fileOf[result0]] && !old(ownsTmp[fileOf[result0]]) && !isLock(fileOf[result0]) && fileOf[result0] != theListFile && fileOf[result0] != ""
+//@   modifies ownsTmp, fileOf, fileClosed, listNames, listLen
+//@   ensures result1 == nil && result0 != nil && fresh(result0) && ownsTmp[fileOf[result0]] && !old(ownsTmp[fileOf[result0]]) && !isLock(fileOf[result0]) && fileOf[result0] != theListFile && fileOf[result0] != "" && notListed(fileOf[result0]) && !fileClosed[fileOf[result0]] && !tblExists[fileOf[result0]] && isTmpName(fileOf[result0])
 //@   ensures forall p string :: p != fileOf[result0] ==> ownsTmp[p] == old(ownsTmp[p])
 //@   ensures forall f ref :: allocated(f) ==> fileOf[f] == old(fileOf[f])
 //@   ensures listStable()
@@ -840,8 +900,9 @@ package reftable
 
 //@ extern (*os.File).Close
 //@   params f
-//@   pure
-//@   ensures result == nil
+//@   modifies fileClosed
+//@   ensures result == nil && fileClosed[fileOf[f]]
+//@   ensures forall p string :: p != fileOf[f] ==> fileClosed[p] == old(fileClosed[p])
 
 //@ extern (*os.File).Write
 //@   params f, b
@@ -864,16 +925,20 @@ package reftable
 // listed table holds at least one block after its header (empty tables are never added to a stack).
 //@ spec sizesOKforStack(st *Stack) bool = len(st.stack) < 1048576 && (forall i int :: 0 <= i && i < len(st.stack) ==> 27 < st.stack[i].size && st.stack[i].size < 1099511627776)
 
-//@ spec heldWf() bool = listLen >= 0 && (forall p string :: held[p] ==> isLock(p))
-//@ spec wfStack(st *Stack) bool = heldWf() && st != nil && sizesOKforStack(st) && st.listFile == theListFile && st.reftableDir == theDir && (forall i int :: 0 <= i && i < len(st.stack) ==> st.stack[i] != nil && !isLock(st.stack[i].name))
+//@ spec heldWf() bool = listLen >= 0 && listedExist() && listDistinct() && listLive() && (forall p string :: held[p] ==> isLock(p))
+//@ spec wfStack(st *Stack) bool = wfStack0(st) && sizesOKforStack(st) && stackOpen(st)
+//@ spec wfStack0(st *Stack) bool = heldWf() && st != nil && st.listFile == theListFile && st.reftableDir == theDir && (forall i int :: 0 <= i && i < len(st.stack) ==> st.stack[i] != nil && !isLock(st.stack[i].name))
+// C10: the handle never holds a closed table
+//@ spec stackOpen(st *Stack) bool = (forall i int :: 0 <= i && i < len(st.stack) ==> !rdClosed[st.stack[i]] && st.stack[i].src != nil) && (forall q *Reader :: rdClosed[q] ==> isalloc(q))
 //@ spec namesMatch(st *Stack) bool = len(st.stack) == listLen && (forall i int :: 0 <= i && i < len(st.stack) ==> st.stack[i].name == listNames[i])
 
 // trusted: parses tables.list (ioutil.ReadFile + bytes.Split); one atomic read of one version of the list.
 // Assumption: no name in tables.list ends in ".lock".
 //@ func (*Stack).readNames
 //@   trusted
-//@   modifies listNames, listLen
+//@   modifies listNames, listLen, lastReadNames, lastReadLen
 //@   ensures listStable()
+//@   ensures result1 == nil ==> lastReadLen == listLen && lastReadNames == listNames
 //@   ensures result1 == nil ==> len(result0) == listLen && (forall i int :: 0 <= i && i < listLen ==> result0[i] == listNames[i] && !isLock(result0[i]))
 //@   ensures result0 == nil || fresh(result0)
 
@@ -881,7 +946,7 @@ package reftable
 //@ func (*Stack).UpToDate
 //@   props C09 C04
 //@   requires wfStack(st)
-//@   modifies listNames, listLen
+//@   modifies listNames, listLen, lastReadNames, lastReadLen
 //@   ensures listStable()
 //@   ensures[exact] result0 && result1 == nil ==> namesMatch(st)
 //@   ensures[complete] !result0 && result1 == nil ==> !namesMatch(st)
@@ -891,22 +956,84 @@ package reftable
 
 // The invariant of an open transaction (C04 clause 4, C08, C09): while it names a lock file it holds that lock, its
 // view of tables.list is the current one, and its name list is that list followed by its own new tables.
-//@ spec addInv(tr *Addition) bool = tr != nil && tr.stack != nil && wfStack(tr.stack) && (ref(tr.names) != ref(tr.newTables) || ref(tr.names) == 0) && (forall j int :: 0 <= j && j < len(tr.newTables) ==> !isLock(tr.newTables[j])) && (tr.lockFileName != "" ==> tr.lockFileName == listLock() && held[listLock()] && tr.lockFile != nil && fileOf[tr.lockFile] == tr.lockFileName && namesPrefix(tr))
+//@ spec addInv(tr *Addition) bool = tr != nil && tr.stack != nil && wfStack(tr.stack) && (ref(tr.names) != ref(tr.newTables) || ref(tr.names) == 0) && (forall j int :: 0 <= j && j < len(tr.newTables) ==> !isLock(tr.newTables[j]) && tblExists[pathJoin(theDir, tr.newTables[j])]) && newNotListed(tr) && namesExist(tr) && namesDistinct(tr) && namesLive(tr) && (tr.lockFileName != "" ==> tr.lockFileName == listLock() && held[listLock()] && tr.lockFile != nil && fileOf[tr.lockFile] == tr.lockFileName && namesPrefix(tr))
+//@ spec namesExist(tr *Addition) bool = forall i int :: 0 <= i && i < len(tr.names) ==> tblExists[pathJoin(theDir, tr.names[i])]
+//@ spec namesLive(tr *Addition) bool = forall i int :: 0 <= i && i < len(tr.names) ==> !retired[tr.names[i]]
+//@ spec namesDistinct(tr *Addition) bool = forall i int, j int :: 0 <= i && i < j && j < len(tr.names) ==> tr.names[i] != tr.names[j]
+//@ spec newNotListed(tr *Addition) bool = forall j int, i int :: 0 <= j && j < len(tr.newTables) && 0 <= i && i < listLen ==> tr.newTables[j] != listNames[i]
 //@ spec namesPrefix(tr *Addition) bool = len(tr.names) == listLen + len(tr.newTables) && (forall i int :: 0 <= i && i < listLen ==> tr.names[i] == listNames[i]) && (forall j int :: 0 <= j && j < len(tr.newTables) ==> tr.names[listLen + j] == tr.newTables[j])
 //@ spec heldSame() bool = forall p string :: held[p] == old(held[p])
 //@ spec heldSubset() bool = forall p string :: held[p] ==> old(held[p])
 //@ spec tmpSubset() bool = forall p string :: ownsTmp[p] ==> old(ownsTmp[p])
-//@ spec closeInv(tr *Addition) bool = tr != nil && tr.stack != nil && wfStack(tr.stack) && (forall j int :: 0 <= j && j < len(tr.newTables) ==> !isLock(tr.newTables[j])) && (tr.lockFileName != "" ==> held[tr.lockFileName])
+//@ spec closeInv(tr *Addition) bool = tr != nil && tr.stack != nil && wfStack(tr.stack) && (forall j int :: 0 <= j && j < len(tr.newTables) ==> !isLock(tr.newTables[j])) && (tr.lockFileName != "" ==> held[tr.lockFileName] && tr.lockFileName == listLock()) && (len(tr.newTables) > 0 ==> tr.lockFileName != "" && newNotListed(tr))
 
-// trusted for now (time, retries, maps): refined under C10
+// C05/C10: one attempt to move the handle to the list that was just read. Garbage collection (G3): it unlinks only
+// tables of the old view that the list just read does not name; with reuseOpen == false every old table is unlinked, so
+// the caller must know that all of them have left the list for good. On failure the view is left as it was, with every
+// reader still open; on success the view is exactly the list that was read.
+//@ func (*Stack).reloadOnce
+//@   props C05 C10 C06
+//@   requires wfStack(st)
+//@   requires[names-are-the-list-just-read] len(names) == lastReadLen && (forall i int :: 0 <= i && i < len(names) ==> names[i] == lastReadNames[i] && !isLock(names[i]))
+//@   requires[list-just-read-is-live] forall i int :: 0 <= i && i < lastReadLen ==> !retired[lastReadNames[i]]
+//@   requires[under-lock-the-list-is-current] held[listLock()] ==> lastReadLen == listLen && lastReadNames == listNames
+//@   requires[no-reuse-means-all-replaced] !reuseOpen ==> (forall j int :: 0 <= j && j < len(st.stack) ==> retired[st.stack[j].name])
+//@   modifies st.stack, rdClosed, held, ownsTmp, tblExists, listNames, listLen, buflen, bufdata
+//@   ensures wfStack0(st) && listStable() && heldSame() && tmpSubset()
+//@   ensures[view-stays-open] stackOpen(st)
+//@   ensures[snapshot] result == nil ==> len(st.stack) == len(names) && (forall i int :: 0 <= i && i < len(st.stack) ==> st.stack[i].name == names[i])
+//@   ensures[failure-keeps-view] result != nil ==> st.stack == old(st.stack)
+//@   loop 1 invariant[map] -1 <= rangeindex && rangeindex < len(st.stack) && curOK(cur, reuseOpen) && curOpen(cur)
+//@   loop 2 frame
+//@   loop 3 frame
+//@   loop 2 invariant[idx] -1 <= rangeindex && rangeindex < len(names) && len(newTables) == rangeindex + 1 && (newTables == nil || fresh(newTables)) && (opened == nil || fresh(opened)) && (ref(opened) != ref(newTables) || ref(opened) == 0)
+//@   loop 2 invariant[map-ok] curOK(cur, reuseOpen)
+//@   loop 2 invariant[map-open] curOpen(cur)
+//@   loop 2 invariant[map-used] reuseOpen ==> (forall k string, j int :: haskey(cur, k) && 0 <= j && j <= rangeindex ==> lastReadNames[j] != k)
+//@   loop 2 invariant[new] forall j int :: 0 <= j && j <= rangeindex ==> newTables[j] != nil && newTables[j].name == names[j] && !rdClosed[newTables[j]] && newTables[j].src != nil
+//@   loop 2 invariant[opened] forall j int :: 0 <= j && j < len(opened) ==> opened[j] != nil && fresh(opened[j]) && opened[j].src != nil
+//@   loop 2 invariant[keep] st.stack == old(st.stack) && rdClosed == old(rdClosed) && wfStack(st) && heldSame() && tmpSubset() && lastReadLen == old(lastReadLen) && lastReadNames == old(lastReadNames)
+//@   loop 2 invariant[lock] held[listLock()] ==> lastReadLen == listLen && lastReadNames == listNames
+//@   loop 3 invariant[gc-wf] wfStack0(st)
+//@   loop 3 invariant[gc-open] stackOpen(st)
+//@   loop 3 invariant[gc-map] curOK(cur, reuseOpen)
+//@   loop 3 invariant[gc] heldSame() && tmpSubset() && st.stack == newTables && len(opened) == 0
+//@   loop 3 invariant[gc2] len(st.stack) == len(names) && (forall i int :: 0 <= i && i < len(st.stack) ==> st.stack[i].name == names[i])
+//@   loop 3 invariant[gc3] forall k string, j int :: haskey(cur, k) && 0 <= j && j < lastReadLen ==> lastReadNames[j] != k
+//@   loop 3 invariant[lock] (held[listLock()] ==> lastReadLen == listLen && lastReadNames == listNames) && lastReadLen == old(lastReadLen) && lastReadNames == old(lastReadNames)
+
+// deferred: closes what this call opened when it fails
+//@ func (*Stack).reloadOnce$1
+//@   inline
+//@   loop 1 invariant[only-own] -1 <= rangeindex && rangeindex < len(opened) && (forall q *Reader :: rdClosed[q] != old(rdClosed[q]) ==> (exists j int :: 0 <= j && j <= rangeindex && opened[j] == q)) && (forall q *Reader :: rdClosed[q] ==> isalloc(q))
+//@   loop 1 invariant[own] forall j int :: 0 <= j && j < len(opened) ==> opened[j] != nil && fresh(opened[j]) && opened[j].src != nil
+
+// every entry of the map of the old view is an open table of that view, filed under its own name
+//@ spec curOK(cur map[string]*Reader, reuseOpen bool) bool = forall k string :: haskey(cur, k) ==> cur[k] != nil && cur[k].name == k && cur[k].src != nil && !fresh(cur[k]) && !isLock(k) && (!reuseOpen ==> retired[k])
+//@ spec curOpen(cur map[string]*Reader) bool = forall k string :: haskey(cur, k) ==> !rdClosed[cur[k]]
+
+// trusted (clock, retry loop, reflect.DeepEqual): reads the list, calls reloadOnce with it, and on ENOENT reads the list
+// again and retries if it changed; finally rebuilds the merged view over st.stack. Assumed: no I/O fault and no 2.5 s
+// livelock, table files of sane size. Its call of reloadOnce is assumed to meet reloadOnce's requires (the names passed
+// are the ones just read); the precondition on reuseOpen is handed on to the callers.
 //@ func (*Stack).reload
 //@   trusted
 //@   requires wfStack(st)
-//@   modifies st.stack, st.merged, listNames, listLen, buflen, bufdata, lastDelta, lastSought
+//@   requires[no-reuse-means-all-replaced] !reuseOpen ==> (forall j int :: 0 <= j && j < len(st.stack) ==> retired[st.stack[j].name])
+//@   modifies st.stack, st.merged, rdClosed, tblExists, listNames, listLen, lastReadNames, lastReadLen, buflen, bufdata, lastDelta, lastSought
 //@   ensures wfStack(st) && listStable()
+//@   ensures[gc-keeps-listed-and-unknown] forall p string :: old(tblExists[p]) && !tblExists[p] ==> (exists j int :: 0 <= j && j < old(len(st.stack)) && p == pathJoin(theDir, old(st.stack[j].name)))
 //@   ensures old(held[listLock()]) ==> namesMatch(st)
 //@   ensures st.merged != nil && len(st.merged.stack) == len(st.stack) && (forall i int :: 0 <= i && i < len(st.stack) ==> st.stack[i].src != nil) && (forall i int :: 0 <= i && i < len(st.merged.stack) ==> st.merged.stack[i] != nil)
 //@   ensures[no-fault-no-livelock] result == nil
+
+// C10: a successfully opened handle satisfies the stack invariant (one list version, every reader open).
+//@ func NewStack
+//@   props C10 C05 C06
+//@   requires heldWf() && dir == theDir && theListFile == pathJoin(dir, "tables.list") && (forall q *Reader :: rdClosed[q] ==> isalloc(q))
+//@   modifies rdClosed, tblExists, listNames, listLen, lastReadNames, lastReadLen, buflen, bufdata, lastDelta, lastSought
+//@   ensures result1 == nil ==> result0 != nil && fresh(result0) && wfStack(result0)
+//@   ensures heldSame() && tmpSubset()
 
 //@ func (*Stack).NextUpdateIndex
 //@   props C09
@@ -916,7 +1043,7 @@ package reftable
 //@ func (*Stack).NewAddition
 //@   props C04 C08 C09 C16
 //@   requires wfStack(st)
-//@   modifies held, fileOf, ownsTmp, listNames, listLen, lockFails
+//@   modifies held, fileOf, ownsTmp, listNames, listLen, lastReadNames, lastReadLen, lockFails, tblExists, fileClosed
 //@   ensures[open] result1 == nil ==> result0 != nil && fresh(result0) && addInv(result0) && result0.lockFileName != "" && len(result0.newTables) == 0 && result0.stack == st && namesMatch(st)
 //@   ensures[lock-taken] result1 == nil ==> !old(held[listLock()]) && (forall p string :: p != listLock() ==> held[p] == old(held[p]))
 //@   ensures[no-leak] result1 != nil ==> heldSame() && result0 == nil
@@ -930,7 +1057,7 @@ package reftable
 //@ func (*Addition).Close
 //@   props C08 C16 C04
 //@   requires closeInv(tr)
-//@   modifies held, ownsTmp, listNames, listLen, tr.lockFile, tr.lockFileName
+//@   modifies held, ownsTmp, tblExists, fileClosed, listNames, listLen, lastReadNames, lastReadLen, tr.lockFile, tr.lockFileName
 //@   ensures tr.lockFileName == "" && tr.lockFile == nil && wfStack(tr.stack)
 //@   ensures[released] old(tr.lockFileName) != "" ==> (forall p string :: held[p] == (old(held[p]) && p != old(tr.lockFileName)))
 //@   ensures[nothing-to-release] old(tr.lockFileName) == "" ==> heldSame()
@@ -942,6 +1069,8 @@ package reftable
 //@   trusted
 //@   pure
 //@   ensures !isLock(result)
+//@   ensures forall i int :: 0 <= i && i < listLen ==> result + ".ref" != listNames[i]
+//@   ensures !tblExists[pathJoin(theDir, result + ".ref")] && !retired[result + ".ref"]
 
 //@ func NewWriter
 //@   props C16
@@ -963,15 +1092,15 @@ package reftable
 // coarse: opens and scans the new table (read-only on the directory)
 //@ func (*Stack).checkAddition
 //@   trusted
-//@   modifies buflen, bufdata, lastDelta, lastSought, listNames, listLen
+//@   modifies buflen, bufdata, lastDelta, lastSought, listNames, listLen, lastReadNames, lastReadLen
 //@   ensures listStable()
 
 // C04/C05/C16: a table is added to the transaction only after it has been written, closed, checked and renamed into
 // place; nothing temporary survives the call; the transaction invariant is kept.
 //@ func (*Addition).Add
-//@   props C04 C05 C16 C08
+//@   props C04 C05 C16 C08 C06
 //@   requires addInv(tr) && tr.lockFileName != ""
-//@   modifies held, ownsTmp, fileOf, listNames, listLen, appends, commits, buflen, bufdata, lastDelta, lastSought, tr.names, tr.names[:cap(tr.names)], tr.newTables, tr.newTables[:cap(tr.newTables)], tr.nextUpdateIndex, anyof(*Writer), anyof(*blockWriter), anyof(*paddedWriter)
+//@   modifies held, ownsTmp, tblExists, fileClosed, fileOf, listNames, listLen, lastReadNames, lastReadLen, appends, commits, buflen, bufdata, lastDelta, lastSought, tr.names, tr.names[:cap(tr.names)], tr.newTables, tr.newTables[:cap(tr.newTables)], tr.nextUpdateIndex, anyof(*Writer), anyof(*blockWriter), anyof(*paddedWriter), retired, rdClosed
 //@   ensures[inv-a1] tr != nil && tr.stack == old(tr.stack) && tr.lockFileName == old(tr.lockFileName) && tr.lockFile == old(tr.lockFile) && appends == old(appends) && commits == old(commits)
 //@   ensures[inv-a2] heldWf()
 //@   ensures[inv-a3] sizesOKforStack(tr.stack)
@@ -981,6 +1110,11 @@ package reftable
 //@   ensures[inv-c1] len(tr.names) == listLen + len(tr.newTables)
 //@   ensures[inv-c2] forall i int :: 0 <= i && i < listLen ==> tr.names[i] == listNames[i]
 //@   ensures[inv-c3] forall j int :: 0 <= j && j < len(tr.newTables) ==> tr.names[listLen + j] == tr.newTables[j]
+//@   ensures[inv-d] forall j int :: 0 <= j && j < len(tr.newTables) ==> tblExists[pathJoin(theDir, tr.newTables[j])]
+//@   ensures[inv-e] newNotListed(tr)
+//@   ensures[inv-f] namesExist(tr)
+//@   ensures[inv-g] namesDistinct(tr)
+//@   ensures[inv-h] namesLive(tr)
 //@   ensures[inv] addInv(tr) && tr.lockFileName != ""
 //@   ensures[no-temp-left] tmpSubset()
 //@   ensures[locks] heldSame()
@@ -989,9 +1123,9 @@ package reftable
 // C04 (clauses 1, 3, 4): Commit replaces tables.list by the current list followed by this transaction's tables, from
 // its own lock file, while holding the lock; afterwards the transaction names no lock it does not hold.
 //@ func (*Addition).Commit
-//@   props C04 C05 C08 C16
+//@   props C04 C05 C08 C16 C06 C10
 //@   requires addInv(tr) && (len(tr.newTables) > 0 ==> tr.lockFileName != "")
-//@   modifies held, ownsTmp, listNames, listLen, wNames, wLen, appends, commits, buflen, bufdata, lastDelta, lastSought, tr.lockFile, tr.lockFileName, tr.newTables, tr.stack.stack, tr.stack.merged
+//@   modifies held, ownsTmp, tblExists, fileClosed, listNames, listLen, lastReadNames, lastReadLen, wNames, wLen, appends, commits, buflen, bufdata, lastDelta, lastSought, tr.lockFile, tr.lockFileName, tr.newTables, tr.stack.stack, tr.stack.merged, retired, rdClosed
 //@   ensures[inv] closeInv(tr)
 //@   ensures[committed-a] old(len(tr.newTables)) > 0 ==> appends == old(appends) + 1
 //@   ensures[committed-b] old(len(tr.newTables)) > 0 ==> tr.lockFileName == ""
@@ -1022,16 +1156,20 @@ package reftable
 //@   props C07
 //@   requires wfStack(st) && wr != nil && 0 <= first && first <= last && last < len(st.stack)
 //@   modifies buflen, bufdata, lastDelta, lastSought, st.Stats.EntriesWritten, anyof(*Writer), anyof(*blockWriter), anyof(*paddedWriter), anyof(*tableIter), anyof(*indexedTableRefIter), anyof(*blockIter)
+//@   ensures[no-lock-failure] result != ErrLockFailure
 //@   loop 1 invariant first <= i && (subtabs == nil || fresh(subtabs))
 //@   loop 2 invariant it != nil && iref(it.impl) != 0 && wr != nil
 //@   loop 3 invariant it != nil && iref(it.impl) != 0 && wr != nil
 
 // C16: on success the temp file is handed to the caller; on failure nothing temporary is left.
 //@ func (*Stack).compactLocked
-//@   props C16 C05
+//@   props C16 C05 C06
 //@   requires wfStack(st) && 0 <= first && first <= last && last < len(st.stack)
-//@   modifies held, ownsTmp, fileOf, listNames, listLen, buflen, bufdata, lastDelta, lastSought, st.Stats.EntriesWritten, anyof(*Writer), anyof(*blockWriter), anyof(*paddedWriter), anyof(*tableIter), anyof(*indexedTableRefIter), anyof(*blockIter)
+//@   modifies held, ownsTmp, tblExists, fileClosed, fileOf, listNames, listLen, lastReadNames, lastReadLen, buflen, bufdata, lastDelta, lastSought, st.Stats.EntriesWritten, anyof(*Writer), anyof(*blockWriter), anyof(*paddedWriter), anyof(*tableIter), anyof(*indexedTableRefIter), anyof(*blockIter)
 //@   ensures listStable() && wfStack(st) && heldSame()
+//@   ensures[no-lock-failure] result1 != ErrLockFailure
+//@   ensures[temp-complete] result1 == nil ==> fileClosed[result0] && !tblExists[result0] && isTmpName(result0)
+//@   ensures[tables-kept] forall p string :: tblExists[p] == old(tblExists[p])
 //@   ensures[temp-handed-over] result1 == nil ==> ownsTmp[result0] && !isLock(result0) && result0 != theListFile && (forall p string :: p != result0 ==> (ownsTmp[p] ==> old(ownsTmp[p])))
 //@   ensures[no-temp-on-failure] result1 != nil ==> tmpSubset() && result0 == ""
 //@   ensures result1 == nil ==> result0 != ""
@@ -1050,7 +1188,7 @@ package reftable
 // deferred: releases the table locks this call took
 //@ func (*Stack).compactRange$2
 //@   inline
-//@   loop 1 invariant -1 <= rangeindex && subtableLocks == old(subtableLocks) && held[listLock()] == old(held[listLock()]) && listLen >= 0 && (old(held[listLock()]) ==> listLen == old(listLen) && listNames == old(listNames))
+//@   loop 1 invariant -1 <= rangeindex && subtableLocks == old(subtableLocks) && held[listLock()] == old(held[listLock()]) && listLen >= 0 && listedExist() && listDistinct() && listLive() && (old(held[listLock()]) ==> listLen == old(listLen) && listNames == old(listNames))
 //@   loop 1 invariant forall k int :: rangeindex < k && k < len(subtableLocks) ==> held[subtableLocks[k]]
 //@   loop 1 invariant forall k int :: 0 <= k && k < len(subtableLocks) ==> isLock(subtableLocks[k]) && subtableLocks[k] != listLock()
 //@   loop 1 invariant forall k int, m int :: 0 <= k && k < m && m < len(subtableLocks) ==> subtableLocks[k] != subtableLocks[m]
@@ -1064,10 +1202,11 @@ package reftable
 //  - the new list is the old one with tables [first,last] replaced by at most one table;
 //  - if it reports success for a non-trivial range it has committed exactly one replacement (strict progress).
 //@ func (*Stack).compactRange
-//@   props C04 C05 C08 C09 C16 C17
+//@   props C04 C05 C08 C09 C16 C17 C06 C10
 //@   requires wfStack(st) && !held[listLock()]
 //@   requires (first < last || expiration != nil) ==> 0 <= first && first <= last && last < len(st.stack)
-//@   modifies held, ownsTmp, fileOf, listNames, listLen, lockFails, wNames, wLen, appends, commits, buflen, bufdata, lastDelta, lastSought, st.stack, st.merged, st.Stats.Attempts, st.Stats.EntriesWritten, anyof(*Writer), anyof(*blockWriter), anyof(*paddedWriter), anyof(*tableIter), anyof(*indexedTableRefIter), anyof(*blockIter)
+//@   requires[expiry-rewrites-the-whole-stack] expiration != nil ==> first == 0 && last == len(st.stack) - 1
+//@   modifies held, ownsTmp, tblExists, fileClosed, fileOf, listNames, listLen, lastReadNames, lastReadLen, lockFails, wNames, wLen, appends, commits, buflen, bufdata, lastDelta, lastSought, st.stack, st.merged, st.Stats.Attempts, st.Stats.EntriesWritten, anyof(*Writer), anyof(*blockWriter), anyof(*paddedWriter), anyof(*tableIter), anyof(*indexedTableRefIter), anyof(*blockIter), retired, rdClosed
 //@   callsite os.Rename 2 ghost a = first; b = last; k = (emptyTable ? 0 : 1)
 //@   ensures[locks-released] heldSubset()
 //@   ensures[no-temp] tmpSubset()
@@ -1075,6 +1214,7 @@ package reftable
 //@   ensures[progress] result0 && (first < last || expiration != nil) ==> commits == old(commits) + 1
 //@   ensures[failure-commits-nothing] !result0 ==> commits == old(commits)
 //@   ensures[lost-race-is-contention-not-error] lockFails > old(lockFails) ==> !result0 && result1 == nil
+//@   ensures[no-lock-failure] result1 != ErrLockFailure
 //@   ensures wfStack(st)
 //@   loop 1 invariant[a] first <= i && i <= last + 1 && wfStack(st) && namesMatch(st) && st.stack == old(st.stack) && lockFileName == listLock() && held[listLock()] && !old(held[listLock()])
 //@   loop 1 invariant[b] len(subtableLocks) == i - first && len(deleteOnSuccess) == i - first && (subtableLocks == nil || fresh(subtableLocks)) && (deleteOnSuccess == nil || fresh(deleteOnSuccess)) && (ref(subtableLocks) != ref(deleteOnSuccess) || ref(subtableLocks) == 0)
@@ -1113,8 +1253,10 @@ package reftable
 //@   props C04 C08 C16 C17
 //@   requires wfStack(st) && !held[listLock()]
 //@   requires (first < last || expiration != nil) ==> 0 <= first && first <= last && last < len(st.stack)
-//@   modifies held, ownsTmp, fileOf, listNames, listLen, lockFails, wNames, wLen, appends, commits, buflen, bufdata, lastDelta, lastSought, st.stack, st.merged, st.Stats.Attempts, st.Stats.Failures, st.Stats.EntriesWritten, anyof(*Writer), anyof(*blockWriter), anyof(*paddedWriter), anyof(*tableIter), anyof(*indexedTableRefIter), anyof(*blockIter)
+//@   requires[expiry-rewrites-the-whole-stack] expiration != nil ==> first == 0 && last == len(st.stack) - 1
+//@   modifies held, ownsTmp, tblExists, fileClosed, fileOf, listNames, listLen, lastReadNames, lastReadLen, lockFails, wNames, wLen, appends, commits, buflen, bufdata, lastDelta, lastSought, st.stack, st.merged, st.Stats.Attempts, st.Stats.Failures, st.Stats.EntriesWritten, anyof(*Writer), anyof(*blockWriter), anyof(*paddedWriter), anyof(*tableIter), anyof(*indexedTableRefIter), anyof(*blockIter), retired, rdClosed
 //@   ensures heldSubset() && tmpSubset() && appends == old(appends) && wfStack(st)
+//@   ensures[no-lock-failure] result1 != ErrLockFailure
 //@   ensures[progress] result0 && (first < last || expiration != nil) ==> commits == old(commits) + 1
 //@   ensures[failure-commits-nothing] !result0 ==> commits == old(commits)
 
@@ -1129,16 +1271,17 @@ package reftable
 
 // C17: the range handed to the compaction is the chooser's: contiguous, at least two tables, inside the stack.
 //@ func (*Stack).AutoCompact
-//@   props C04 C08 C16 C17
+//@   props C04 C08 C16 C17 C10
 //@   requires wfStack(st) && !held[listLock()]
-//@   modifies held, ownsTmp, fileOf, listNames, listLen, lockFails, wNames, wLen, appends, commits, buflen, bufdata, lastDelta, lastSought, st.stack, st.merged, st.Stats.Attempts, st.Stats.Failures, st.Stats.EntriesWritten, anyof(*Writer), anyof(*blockWriter), anyof(*paddedWriter), anyof(*tableIter), anyof(*indexedTableRefIter), anyof(*blockIter)
+//@   modifies held, ownsTmp, tblExists, fileClosed, fileOf, listNames, listLen, lastReadNames, lastReadLen, lockFails, wNames, wLen, appends, commits, buflen, bufdata, lastDelta, lastSought, st.stack, st.merged, st.Stats.Attempts, st.Stats.Failures, st.Stats.EntriesWritten, anyof(*Writer), anyof(*blockWriter), anyof(*paddedWriter), anyof(*tableIter), anyof(*indexedTableRefIter), anyof(*blockIter), retired, rdClosed
 //@   ensures heldSubset() && tmpSubset() && appends == old(appends) && wfStack(st)
+//@   ensures[no-lock-failure] result != ErrLockFailure
 //@   ensures commits <= old(commits) + 1
 
 //@ func (*Stack).CompactAll
-//@   props C04 C08 C16
+//@   props C04 C08 C16 C10
 //@   requires wfStack(st) && !held[listLock()] && len(st.stack) > 0
-//@   modifies held, ownsTmp, fileOf, listNames, listLen, lockFails, wNames, wLen, appends, commits, buflen, bufdata, lastDelta, lastSought, st.stack, st.merged, st.Stats.Attempts, st.Stats.EntriesWritten, anyof(*Writer), anyof(*blockWriter), anyof(*paddedWriter), anyof(*tableIter), anyof(*indexedTableRefIter), anyof(*blockIter)
+//@   modifies held, ownsTmp, tblExists, fileClosed, fileOf, listNames, listLen, lastReadNames, lastReadLen, lockFails, wNames, wLen, appends, commits, buflen, bufdata, lastDelta, lastSought, st.stack, st.merged, st.Stats.Attempts, st.Stats.EntriesWritten, anyof(*Writer), anyof(*blockWriter), anyof(*paddedWriter), anyof(*tableIter), anyof(*indexedTableRefIter), anyof(*blockIter), retired, rdClosed
 //@   ensures heldSubset() && tmpSubset() && appends == old(appends) && wfStack(st)
 
 // Assumption about the caller-supplied transaction function (see (*Addition).Add#write).
@@ -1149,9 +1292,9 @@ package reftable
 // C04 (safety core): one transaction; an error means nothing was committed except on the return site of Commit's
 // reload (see known findings); nothing is left locked or temporary (C08, C16).
 //@ func (*Stack).add
-//@   props C04 C08 C09 C16
+//@   props C04 C08 C09 C16 C10
 //@   requires wfStack(st) && !held[listLock()]
-//@   modifies held, ownsTmp, fileOf, listNames, listLen, lockFails, wNames, wLen, appends, commits, buflen, bufdata, lastDelta, lastSought, st.stack, st.merged, anyof(*Writer), anyof(*blockWriter), anyof(*paddedWriter), anyof(*Addition)
+//@   modifies held, ownsTmp, tblExists, fileClosed, fileOf, listNames, listLen, lastReadNames, lastReadLen, lockFails, wNames, wLen, appends, commits, buflen, bufdata, lastDelta, lastSought, st.stack, st.merged, anyof(*Writer), anyof(*blockWriter), anyof(*paddedWriter), anyof(*Addition), retired, rdClosed
 //@   ensures[locks-released] heldSubset()
 //@   ensures[no-temp] tmpSubset()
 //@   ensures[at-most-one] appends <= old(appends) + 1 && appends >= old(appends)
@@ -1159,9 +1302,9 @@ package reftable
 //@   ensures wfStack(st)
 
 //@ func (*Stack).Add
-//@   props C04 C08 C09 C16
+//@   props C04 C08 C09 C16 C10
 //@   requires wfStack(st) && !held[listLock()]
-//@   modifies held, ownsTmp, fileOf, listNames, listLen, lockFails, wNames, wLen, appends, commits, buflen, bufdata, lastDelta, lastSought, st.stack, st.merged, st.Stats.Attempts, st.Stats.Failures, st.Stats.EntriesWritten, anyof(*Writer), anyof(*blockWriter), anyof(*paddedWriter), anyof(*tableIter), anyof(*indexedTableRefIter), anyof(*blockIter), anyof(*Addition)
+//@   modifies held, ownsTmp, tblExists, fileClosed, fileOf, listNames, listLen, lastReadNames, lastReadLen, lockFails, wNames, wLen, appends, commits, buflen, bufdata, lastDelta, lastSought, st.stack, st.merged, st.Stats.Attempts, st.Stats.Failures, st.Stats.EntriesWritten, anyof(*Writer), anyof(*blockWriter), anyof(*paddedWriter), anyof(*tableIter), anyof(*indexedTableRefIter), anyof(*blockIter), anyof(*Addition), retired, rdClosed
 //@   ensures[locks-released] heldSubset()
 //@   ensures[no-temp] tmpSubset()
 //@   ensures[at-most-one] appends <= old(appends) + 1 && appends >= old(appends)
@@ -1194,9 +1337,10 @@ package reftable
 //@   ensures result1 == nil ==> iref(result0) != 0
 
 //@ func (*Reader).Close
-//@   props C16
+//@   props C16 C10
 //@   requires r != nil && r.src != nil
 //@   pure
+//@   sets rdClosed[r] = true
 
 //@ func (*Reader).Name
 //@   pure
@@ -1211,28 +1355,30 @@ package reftable
 // C16: Clean succeeds on any stack, including an empty one; it takes and releases the list lock and removes only
 // files that are not locks.
 //@ func (*Stack).Clean
-//@   props C16 C08
+//@   props C16 C08 C10
 //@   requires wfStack(st) && !held[listLock()] && (forall i int :: 0 <= i && i < len(st.stack) ==> st.stack[i].src != nil)
 //@   nopanic
-//@   modifies held, ownsTmp, fileOf, listNames, listLen, lockFails, buflen, bufdata, lastDelta, lastSought, st.stack, st.merged, anyof(*Addition)
+//@   modifies held, ownsTmp, tblExists, fileClosed, fileOf, listNames, listLen, lastReadNames, lastReadLen, lockFails, buflen, bufdata, lastDelta, lastSought, st.stack, st.merged, anyof(*Addition), rdClosed
 //@   ensures[locks-released] heldSubset()
 //@   ensures[no-temp] tmpSubset()
-//@   loop 1 invariant -1 <= rangeindex && rangeindex < len(st.stack)
+//@   loop 1 invariant[set] -1 <= rangeindex && rangeindex < len(st.stack) && namesMatch(st) && (forall i int :: 0 <= i && i <= rangeindex ==> haskey(names, listNames[i]))
 //@   loop 2 invariant[a] -1 <= rangeindex && rangeindex < len(entries) && closeInv(add) && add.lockFileName == listLock() && wfStack(st) && tmpSubset() && !old(held[listLock()])
 //@   loop 2 invariant[b] forall p string :: held[p] ==> old(held[p]) || p == listLock()
 //@   loop 2 invariant[c] forall i int :: 0 <= i && i < len(entries) ==> entries[i] != nil
 //@   loop 2 invariant[d] len(st.stack) > 0 ==> st.merged != nil && len(st.merged.stack) == len(st.stack)
+//@   loop 2 invariant[e] held[listLock()] && (forall i int :: 0 <= i && i < listLen ==> haskey(names, listNames[i]))
 
 // C16: Close succeeds on any stack; it removes only files that are not locks and leaves nothing held.
 //@ func (*Stack).Close
 //@   props C16 C08
-//@   requires wfStack(st) && (forall i int :: 0 <= i && i < len(st.stack) ==> st.stack[i].src != nil)
+//@   requires wfStack(st) && !held[listLock()] && (forall i int :: 0 <= i && i < len(st.stack) ==> st.stack[i].src != nil)
 //@   nopanic
-//@   modifies held, ownsTmp, listNames, listLen, st.stack
+//@   modifies held, ownsTmp, tblExists, fileClosed, listNames, listLen, lastReadNames, lastReadLen, st.stack, rdClosed
 //@   ensures[locks-untouched] heldSame()
 //@   ensures[no-temp] tmpSubset()
-//@   loop 1 invariant -1 <= rangeindex && rangeindex < len(names)
-//@   loop 2 invariant -1 <= rangeindex && rangeindex < len(st.stack) && wfStack(st) && st.stack == old(st.stack) && heldSame() && tmpSubset() && (forall i int :: 0 <= i && i < len(st.stack) ==> st.stack[i].src != nil)
+//@   loop 1 invariant[set] -1 <= rangeindex && rangeindex < len(names) && (len(names) == 0 ==> len(nameSet) == 0) && (len(names) > 0 ==> len(names) == lastReadLen && (forall i int :: 0 <= i && i <= rangeindex ==> haskey(nameSet, lastReadNames[i])))
+//@   loop 2 invariant[inv] -1 <= rangeindex && rangeindex < len(st.stack) && wfStack0(st) && st.stack == old(st.stack) && heldSame() && tmpSubset() && (forall i int :: 0 <= i && i < len(st.stack) ==> st.stack[i].src != nil)
+//@   loop 2 invariant[g3] len(nameSet) > 0 ==> (forall i int :: 0 <= i && i < lastReadLen ==> haskey(nameSet, lastReadNames[i]))
 
 // ---------------------------------------------------------------------------------------------
 // iterators at the API surface (C11, C18, C19)
